@@ -38,6 +38,15 @@ CLAIMED = {
  "C09": dict(text="Closed form of the preconditioned integrated-Wiener transition proved for every q (A(h)_ij = h^(j-i)/(j-i)!, Hilbert-type Q(h)), linearity of the noise in the squared scale, composition of transitions as composition of conditionals; for the exponential priors: Pade order (exactly 2p) and Legendre-Gram order conditions proved for the five SOURCE tables (re-translated every run) by exact series arithmetic, doubling exactness, Kahan-Hilbert Gram (n<=11), OU/Matern bottom blocks; correspondence of all transitions, merges, exp_gram_cholesky for the five orders (vs the exact rational model of the same algorithm and vs an independent high-precision reference), float64 and float32.",
              note=TB + "'Equals the matrix exponential to working precision' is transcendental: proved are the orders of the rational approximants and the exactness of doubling; the residual gap is measured against a 900-bit reference. Bounds (five orders, n<=11, q<=10) are stated in the theorems proved by vm_compute.",
              tech="machine-checked proof in Coq (closed forms for all q; reflective exact-series identities for the source tables) + model-vs-implementation correspondence + independent high-precision reference"),
+ "C10": dict(text="Formal power-series semantics (Base/Series.v: commutative ring, Leibniz rule, chain rule for polynomial composition) and the formal series solution of u^(k) = f (existence, uniqueness); the padded-scan and unroll routines and the (repaired) recursive-JVP routine are proved to return the solution derivatives for EVERY polynomial field of any order, time-dependent or not, every num; Newton doubling proved for autonomous first-order fields and refuted for time-dependent ones (known finding); correspondence of all five routines incl. pytree states against the Coq models and the spec.",
+             note=TB + "jax.experimental.jet is an oracle (truncated series semantics, measured by the correspondence); jetexpand_residual is compared with the specification only.",
+             tech="machine-checked proof in Coq (refinement to the formal power-series solution) + model-vs-implementation correspondence"),
+ "C11": dict(text="Lift = total time derivatives D_t^l f along the supplied coefficients incl. explicit time (all polynomial f, all orders, all lift orders); lift_by range check reflected; residual_from_ode / residual_from_stack bookkeeping; the three factorisations' linearisations reproduce value and (full / per-dimension / trace-averaged) Jacobian; correspondence of lifts, range errors, stacks and linearize() for the three factorisations.",
+             note=TB + "jet is an oracle; polynomial vector fields in executions, arbitrary polynomial data in theorems.",
+             tech="machine-checked proof in Coq (series composition; boolean reflection of the range check) + model-vs-implementation correspondence"),
+ "C12": dict(text="PARTIAL (N-point chain rule not proved in general): the loss recursion (to_derivative observation models, bayes_rule_and_logpdf, evaluate_lml with running mean/sum, terminal loss) is modelled with every density term as the exact pair (quadratic form via the certified inverse, determinant by Laplace expansion); accumulator theorem for all N, one step = predict-then-condition, chain rule for two time points; on every case the implementation's loss is compared with the model on the exact posterior AND with an independent exact evaluation of the joint density assembled from the Markov factorisation plus noise, and model vs joint agree as exact rationals.",
+             note=TB + "logarithms are evaluated by the harness from exact rationals; std > 0 only (no certified pseudo-inverse).",
+             tech="machine-checked proof in Coq (accumulator invariant, 2-point chain rule) + exact joint-density oracle"),
  "C16": dict(text="PARTIAL: the one hand-written derivative rule (custom JVP of qr_r) is analysed in Coq: it preserves the Gram derivative for all shapes (theorem) and is refuted as derivative of the triangular factor (exact rational witness); the JAX transformation machinery itself cannot be modelled. The check compares jax.jvp, jax.jacrev and 4th-order finite differences of means, stds, scales and losses w.r.t. vector-field, initial-value, base-scale and noise parameters, with discriminator re-runs (exact QR rule, safe norm, triangular solve) that attribute mismatches to the listed known findings.",
              note=TB + "Forward/reverse agreement and finiteness are observed, not proved (JAX runtime).",
              tech="machine-checked proof in Coq (matrix identity + refutation witness) + AD-vs-finite-difference comparison with discriminators"),
